@@ -381,7 +381,7 @@ def r10_2(ctx):
             if imm:
                 out.ok(fn.qname, "stored value is nested tuples (immutable by construction)", where=fn.where(store))
             else:
-                bad = _mutating_uses_of_result(ctx, fn)
+                bad = _mutating_uses_of_result(ctx, fn) + _memo_value_handed_to_mutator(ctx, fn, cls, name, store)
                 if bad:
                     for q, where, what in bad:
                         out.bad(q, f"mutates a memoised value of {cls}.{name}: {what}", where=where)
@@ -389,6 +389,33 @@ def r10_2(ctx):
                     out.ok(fn.qname, "stored value is not immutable by construction but every caller only reads it",
                            where=fn.where(store))
     return out
+
+
+def _memo_value_handed_to_mutator(ctx, fn, cls, name, store):
+    """inside the memoising function itself: the stored object (or what is read back from the table) is changed in
+    place, or passed to a function whose effect summary (engine O) writes that parameter"""
+    O = ownership(ctx)
+    inf = ctx.typer.of(fn)
+    table = f"{cls}.{name}"
+    names = {x.id for x in ast.walk(store.value) if isinstance(x, ast.Name)}
+    for n in ast.walk(fn.node):
+        if isinstance(n, ast.Assign) and isinstance(n.value, ast.Subscript) and U(n.value.value) == table:
+            names |= {x.id for t in n.targets for x in ast.walk(t) if isinstance(x, ast.Name)}
+    names -= set(fn.params)
+    bad = list(_mutations_of(fn, names))
+    for n in ast.walk(fn.node):
+        if not isinstance(n, ast.Call):
+            continue
+        for t in inf.targets(n, ("call",)):
+            ps = [a.arg for a in t.node.args.posonlyargs + t.node.args.args]
+            if t.kind in ("method", "getter", "setter", "class") and isinstance(n.func, ast.Attribute) and ps:
+                ps = ps[1:]
+            for pn, a in list(zip(ps, n.args)) + [(k.arg, k.value) for k in n.keywords if k.arg in ps]:
+                if isinstance(a, ast.Name) and a.id in names and O.S[t.qname].mut.get(pn):
+                    fields = sorted({f for (f, d, g) in O.S[t.qname].mut[pn]})
+                    bad.append((fn.qname, fn.where(n), f"`{a.id}` is handed to {t.qname}, which modifies it in place "
+                                                       f"({', '.join(fields)[:40]})"))
+    return bad
 
 
 def defs_nodes(fn):
